@@ -5,6 +5,7 @@ import (
 	"sync"
 
 	"github.com/elliotchance/orderedmap/v3"
+	"github.com/mitchellh/hashstructure/v2"
 	"gopkg.in/yaml.v3"
 
 	"github.com/go-task/task/v3/errors"
@@ -131,6 +132,17 @@ func (vars *Vars) Merge(other *Vars, include *Include) {
 		}
 		vars.om.Set(pair.Key, pair.Value)
 	}
+}
+
+// Hash implements hashstructure.Hashable. Vars only has unexported fields,
+// which hashstructure skips, so without this method the variables of a task
+// would not take part in its hash. The order of the entries is irrelevant.
+func (vs *Vars) Hash() (uint64, error) {
+	m := make(map[string]Var, vs.Len())
+	for k, v := range vs.All() {
+		m[k] = v
+	}
+	return hashstructure.Hash(m, hashstructure.FormatV2, nil)
 }
 
 func (vs *Vars) DeepCopy() *Vars {
